@@ -178,7 +178,7 @@ impl ReadOnlyCache {
 }
 ''')
     im = u.item('src/readonly.rs', ['impl ReadOnlyCache'])
-    KEEP = {'get', 'touch'}
+    KEEP = {'get', 'touch', 'new'}
     dropped = im.drop_members_except(KEEP)
     u.dropped.append('readonly.rs: ReadOnlyCache members not under contract: ' + ', '.join(dropped))
 
@@ -296,6 +296,10 @@ impl ReadOnlyCache {
         ('C16:an-invalid-name-never-gets-past-the-first-level', 'k > 0 ==> first_byte_ok(str_bytes(key.name))'),
         ('C06 C20:at-most-two-calls-per-level', 'w.steps <= old(w).steps + 2 * k && w.opens == old(w).opens'),
     ], ensures=[('', 'k == stack@.len()')], decreases='stack@.len() - k')
+    nw = u.under_contract(im.sub(['fn new']), ['C14', 'C13'])
+    nw.air = 'readonly::ReadOnlyCache::new'
+    nw.contract(ensures=[('C14 C13:levels-in-registration-order-and-the-given-checker', 'r.levels() == stack@ && r.checker() == consistency_checker')])
+    weave_builders_readonly(u)
     u.text('}\n')
 
 
@@ -708,6 +712,7 @@ pub open spec fn read_copies_accepted(rs: ReadOnlyCache, links: Map<PathV, Inode
         else:
             d.insert_after('let path = this . finalize_tempfile ( value ) ? ;', '\n            proof { if valid_key(str_bytes(key.name)) { lemma_value_ok_after_finalize(*old(w), *w, path.pathv(), str_bytes(key.name), this.syncs()); } }')
     weave_get_or_update(u, INV, BADK)
+    weave_builders_stack(u)
     u.text('}\n')
 
 
@@ -918,3 +923,69 @@ pub fn opt_arc_as_ref<T: ?Sized>(o: &Option<Arc<T>>) -> (r: Option<&T>)
     g.insert_before('let mut tmp = tempfile :: tempfile ( ) ? ;', 'let ghost wt0 = *w;\n                ')
     g.body_start('let ghost w0 = *w;   // the local variable `old` below shadows old(..)')
     g.attr('#[verifier::rlimit(400)]')   # ~30 exits x 11 postconditions: the largest query of the unit (see DESIGN, solver budget)
+
+
+DYN_TY = ('Option < Arc < dyn Fn ( & mut File , & mut File ) -> Result < ( ) > + Sync + Send + std :: panic :: RefUnwindSafe '
+          '+ std :: panic :: UnwindSafe , > , >')
+
+
+def weave_builders_readonly(u):
+    """C14 "the builder installs the checker on both sides": ReadOnlyCache::new, ReadOnlyCacheBuilder::{arc_consistency_checker, build}."""
+    u.dropped.append('T7: the spelled-out parameter type `Option<Arc<dyn Fn(&mut File, &mut File) -> Result<()> + markers>>` of the two arc_consistency_checker '
+                     'methods is `Option<ConsistencyChecker>` (the alias, i.e. the stand-in); T2: `a.clone_from(&b)` is rebound to `a = b.clone()` (Verus has no clone_from)')
+    sb = u.item('src/readonly.rs', ['struct ReadOnlyCacheBuilder'])
+    sb.drop_attrs()
+    sb.drop_inner_attrs('# [ derivative ( Debug = "ignore" ) ]')
+    sb.insert_before('stack :', 'pub ')
+    sb.insert_before('consistency_checker :', 'pub ')
+    u.dropped.append('readonly.rs / stack.rs: #[derive(Default, Derivative)] on the two builder structs; their fields are widened to `pub` (T9) for the contracts')
+    ib = u.item('src/readonly.rs', ['impl ReadOnlyCacheBuilder'])
+    ib.drop_members_except({'arc_consistency_checker', 'build'})
+    a = u.under_contract(ib.sub(['fn arc_consistency_checker']), ['C14'])
+    a.air = 'readonly::ReadOnlyCacheBuilder::arc_consistency_checker'
+    a.drop_attrs()
+    a.replace(DYN_TY, 'Option<ConsistencyChecker>', 'T7-checker-type')
+    a.contract(ensures=[('C14:the-read-side-gets-exactly-this-checker', 'r.consistency_checker == checker && r.stack == old(self).stack && *final(self) == *final(r)')])
+    b = u.under_contract(ib.sub(['fn build']), ['C14', 'C13'])
+    b.air = 'readonly::ReadOnlyCacheBuilder::build'
+    b.contract(ensures=[('C14 C13:the-cache-has-the-builders-levels-in-order-and-its-checker', 'r.levels() == self.stack@ && r.checker() == self.consistency_checker')])
+
+
+def weave_builders_stack(u):
+    """CacheBuilder::{arc_consistency_checker, clear_consistency_checker, auto_sync, build}."""
+    cb = u.item('src/stack.rs', ['struct CacheBuilder'])
+    cb.drop_attrs()
+    cb.drop_inner_attrs('# [ derivative ( Debug = "ignore" ) ]')
+    for fld in ('write_side :', 'auto_sync :', 'consistency_checker :', 'read_side :'):
+        cb.insert_before(fld, 'pub ')
+    u.text('''
+impl CacheBuilder {
+    /// Builder invariant (C14): both sides hold the same checker.
+    pub open spec fn wf(&self) -> bool {
+        self.consistency_checker == self.read_side.consistency_checker
+    }
+}
+''')
+    ic = u.item('src/stack.rs', ['impl CacheBuilder'])
+    ic.drop_members_except({'arc_consistency_checker', 'clear_consistency_checker', 'auto_sync', 'build'})
+    KEEPS = 'r.write_side == old(self).write_side && r.read_side.stack == old(self).read_side.stack'
+    a = u.under_contract(ic.sub(['fn arc_consistency_checker']), ['C14'])
+    a.air = 'stack::CacheBuilder::arc_consistency_checker'
+    a.drop_attrs()
+    a.replace(DYN_TY, 'Option<ConsistencyChecker>', 'T7-checker-type')
+    a.replace('self . consistency_checker . clone_from ( & checker )', 'self.consistency_checker = checker.clone()', 'T2-rebind')
+    a.contract(ensures=[('C14:the-builder-installs-the-checker-on-both-sides', 'r.consistency_checker == checker && r.read_side.consistency_checker == checker && r.wf()'),
+                        ('', KEEPS + ' && r.auto_sync == old(self).auto_sync && *final(self) == *final(r)')])
+    c = u.under_contract(ic.sub(['fn clear_consistency_checker']), ['C14'])
+    c.air = 'stack::CacheBuilder::clear_consistency_checker'
+    c.contract(ensures=[('C14:clearing-removes-the-checker-on-both-sides', 'r.consistency_checker.is_none() && r.read_side.consistency_checker.is_none() && r.wf()'),
+                        ('', KEEPS + ' && r.auto_sync == old(self).auto_sync && *final(self) == *final(r)')])
+    s_ = u.under_contract(ic.sub(['fn auto_sync']), ['C03', 'C14'])
+    s_.air = 'stack::CacheBuilder::auto_sync'
+    s_.contract(ensures=[('C03:the-flag-is-stored', 'r.auto_sync == sync'),
+                         ('C14', KEEPS + ' && r.consistency_checker == old(self).consistency_checker && r.read_side.consistency_checker == old(self).read_side.consistency_checker && *final(self) == *final(r)')])
+    b = u.under_contract(ic.sub(['fn build']), ['C14', 'C13', 'C03'])
+    b.air = 'stack::CacheBuilder::build'
+    b.contract(ensures=[('C14:the-cache-and-its-read-side-share-the-builders-checker',
+                         'r.checker() == self.consistency_checker && r.readers().checker() == self.read_side.consistency_checker && (self.wf() ==> r.readers().checker() == r.checker())'),
+                        ('C13 C03:levels-writer-and-auto-sync-are-the-builders', 'r.readers().levels() == self.read_side.stack@ && r.writer() == self.write_side && r.syncs() == self.auto_sync')])
